@@ -51,9 +51,14 @@ func DecodeMetadata(input any, result any) error {
 	// if input is of type struct, cast it to metadata.Base and access the Properties instead
 	v := reflect.ValueOf(input)
 	if v.Kind() == reflect.Struct {
-		f := v.FieldByName("Properties")
-		if f.IsValid() && f.Kind() == reflect.Map {
-			input = f.Interface().(map[string]string)
+		if sf, found := v.Type().FieldByName("Properties"); found {
+			// FieldByIndexErr does not panic when the field is promoted through a nil embedded pointer
+			f, err := v.FieldByIndexErr(sf.Index)
+			if err == nil && f.Kind() == reflect.Map && f.CanInterface() {
+				if props, ok := f.Interface().(map[string]string); ok {
+					input = props
+				}
+			}
 		}
 	}
 
